@@ -21,6 +21,7 @@ def run(case, S):
     S["W"] = min(S["W"], 4)
     if S["W"] % S["G"]:
         S["G"] = 1 if S["W"] == 1 else max(d for d in range(1, S["W"] + 1) if S["W"] % d == 0 and d <= S["G"])
+    S["G_arg"] = -1 if (S.get("G_arg") == -1 and S["G"] == S["W"]) else S["G"]
     S["T"] = min(S["T"], 6)
     S["seed"] = case["seed"]
     counters = {"evals": 1, "gloo_runs": 1, "gloo_collectives_logged": 0, "replica_comparisons": 0, "serial_bitwise_steps": 0}
